@@ -3,7 +3,7 @@
 //! "-u" unscheduled: shutdown after a burst (family runs), the forget path on real threads (tag 3: the harness
 //! waits for the stream's drop), and a global sink's AttachHandle (tag 4).
 use super::c01::queue_core::*;
-use super::c01::queue_family::{emit_stress, explore, small_plans, gen_plan, gen_shutdown_big, gen_stress, emit_scheduled, install_subscriber, replay_line, Focus, StressPlan};
+use super::c01::queue_family::{too_many_stuck, emit_stress, explore, small_plans, gen_plan, gen_shutdown_big, gen_stress, emit_scheduled, install_subscriber, replay_line, Focus, StressPlan};
 use super::c01::queue_sched::attach;
 use crate::common::{Ctx, Out, Rng};
 use crate::sx::{self, Sx};
@@ -130,12 +130,19 @@ pub fn run(ctx: &Ctx) {
                 s.notes.push(format!("phase {phase}: time budget reached after {i} scheduled cases"));
                 break;
             }
+            if too_many_stuck() {
+                s.notes.push("scheduled cases stopped: threads repeatedly failed to reach their next synchronisation point".into());
+                break;
+            }
             let big = rng.chance(1, 100);
             let plan = gen_plan(&mut rng, Focus::Shutdown, big);
             let bias = *rng.pick(&[1, 2, 4, 4, 12, 30]);
             emit_scheduled(&mut s, &plan, &mut rng, None, bias);
         }
         for _ in 0..(if ctx.tier_thorough { 60 } else { 8 }) {
+            if too_many_stuck() {
+                break;
+            }
             let plan = gen_shutdown_big(&mut rng);
             emit_scheduled(&mut s, &plan, &mut rng, None, 0);
         }
